@@ -85,7 +85,7 @@ class State:
             self._solver_n = len(self.pc)
         return self._solver
 
-    def check(self, *extra):
+    def check(self, *extra, timeout_ms=None):
         """z3 result of pc /\\ extra"""
         import time
         # a fresh, non-incremental solver per query: z3's incremental mode (push/pop) is markedly
@@ -94,7 +94,7 @@ class State:
         # E-matching only (smt.mbqi off, as Boogie/Dafny do): a satisfiable query with quantifiers then comes
         # back "unknown" in milliseconds instead of burning the timeout in model-based instantiation
         s = z3.Solver()
-        s.set('timeout', QUERY_TIMEOUT_MS)
+        s.set('timeout', timeout_ms or QUERY_TIMEOUT_MS)
         s.set('smt.mbqi', False)
         s.set('smt.arith.nl', False)      # path queries: products stay opaque (fewer deductions, never unsound for 'unsat')
         s.set('smt.qi.max_instances', int(os.environ.get('PYVC_QI_MAX', '3000')))
@@ -103,7 +103,7 @@ class State:
         for p_ in prepped:
             s.add(p_)
         r = s.check()
-        if r == z3.unknown:
+        if r == z3.unknown and not os.environ.get('PYVC_NO_QF'):
             # quantifier-free fallback: many path facts (type tags, lengths) already follow from the ground part of the path condition;
             # deciding them there does not depend on how far quantifier instantiation got within the time limit (unsat of a subset is unsat)
             qflags = [_quantified(p_) for p_ in prepped]
@@ -131,7 +131,7 @@ class State:
             print("  [slow query %.1fs -> %s] pc=%d extra=%s" % (dt, r, len(self.pc), [str(e)[:300] for e in extra]))
         return r
 
-    def feasible(self, phi=None):
+    def feasible(self, phi=None, timeout_ms=None):
         """False only if pc /\\ phi is certainly unsatisfiable"""
         if phi is not None:
             sp = z3.simplify(phi)
@@ -139,8 +139,8 @@ class State:
                 return False
             if z3.is_true(sp) and not self.pc:
                 return True
-            return self.check(sp) != z3.unsat
-        return self.check() != z3.unsat
+            return self.check(sp, timeout_ms=timeout_ms) != z3.unsat
+        return self.check(timeout_ms=timeout_ms) != z3.unsat
 
     def implies(self, phi):
         """True only if pc certainly implies phi"""
